@@ -65,8 +65,39 @@ class RerunScenario(cmdscn.CmdScenario):
                     w = ws.get(pt['workflow_execution_id'])
         return v
 
-    def model_for_history(self):
-        cmds = env.W.extra.get('cmds', [])
+    OVERLAP = 'rerun-repeated-before-the-previous-rerun-restarted-the-task'
+
+    def _note_history(self, kind):
+        super(RerunScenario, self)._note_history(kind)
+        if kind in ('rerun', 'rerun_noreset', 'skip'):
+            # the same failure commanded twice: the previous rerun's start
+            # request is still in flight (the task is still ERROR)
+            pend = any(m.method == 'start_task' and
+                       m.kwargs.get('rerun') == 'true' for m in env.W.msgs)
+            h = env.W.extra.setdefault('hist', [])
+            if pend and self.OVERLAP not in h:
+                h.append(self.OVERLAP)
+
+    def models_for_history(self):
+        """Allowed outcome sets.  Normally one: every rerun consumed one
+        result of the task.  When a rerun was repeated for the same failure
+        (issued again before the previous one restarted the task) the two
+        commands may count as one rerun or as two."""
+        out = [self.model_for_history()]
+        if self.OVERLAP in env.W.extra.get('hist', []):
+            cmds = env.W.extra.get('cmds', [])
+            n = sum(1 for c in cmds if c[0] in ('rerun', 'rerun_noreset'))
+            for drop in range(1, n):
+                out.append(self.model_for_history(drop_reruns=drop))
+        return out
+
+    def model_for_history(self, drop_reruns=0):
+        cmds = list(env.W.extra.get('cmds', []))
+        for _ in range(drop_reruns):
+            for i in range(len(cmds) - 1, -1, -1):
+                if cmds[i][0] in ('rerun', 'rerun_noreset'):
+                    del cmds[i]
+                    break
         res = {k: list(v) for k, v in self.results.items()}
         skipped = set()
         for kind, tname in cmds:
@@ -85,13 +116,14 @@ class RerunScenario(cmdscn.CmdScenario):
 
     def check_terminal(self, snap, ctx):
         key, v = wfscn.WfScenario.check_terminal(self, snap, ctx)
-        m = self.model_for_history()
+        ms = self.models_for_history()
+        m = ms[0]
         impl = refmodel.project_impl(wfscn.outcome_of(snap))
         # the re-executed task keeps its history of attempts: compare what
         # the model defines (states, published, output), not stored contexts
-        if not m['truncated'] and not any(
+        if not any(x['truncated'] for x in ms) and not any(
                 refmodel.matches(impl, o, True, False)
-                for o in m['outcomes']):
+                for x in ms for o in x['outcomes']):
             v.append('terminal outcome after %s differs from the run in '
                      'which the task had its new result from the start: '
                      'impl=%s allowed=%s' % (
